@@ -25,6 +25,7 @@ type Env struct {
 	oldVer    map[string]int               // versions for old(); missing = 0
 	visited   func(k string) (string, error)
 	visitedOf func(n int, k string) (string, error)
+	idxOf     func(n int) (string, error)
 	preVer    map[string]int // heap versions at entry to the loop whose invariant is being elaborated
 	qdepth    int            // quantifier nesting depth
 	qvars     []string       // bound variable terms of the innermost quantifier
@@ -32,7 +33,7 @@ type Env struct {
 }
 
 func (env *Env) child() *Env {
-	return &Env{e: env.e, vars: map[string]EV{}, parent: env, lookup: env.lookup, curVer: env.curVer, oldVer: env.oldVer, visited: env.visited, visitedOf: env.visitedOf, preVer: env.preVer, qdepth: env.qdepth, qvars: env.qvars, trig: env.trig}
+	return &Env{e: env.e, vars: map[string]EV{}, parent: env, lookup: env.lookup, curVer: env.curVer, oldVer: env.oldVer, visited: env.visited, visitedOf: env.visitedOf, idxOf: env.idxOf, preVer: env.preVer, qdepth: env.qdepth, qvars: env.qvars, trig: env.trig}
 }
 
 func (env *Env) get(name string) (EV, bool) {
@@ -527,6 +528,30 @@ func (env *Env) elabCall(n ECall) (string, SType, error) {
 		r := fmt.Sprintf("(select %s %s)", a, i)
 		env.trigger(r, i)
 		return r, st, nil
+	case "fnvalue": // fnvalue(pkg.Func): the function value of a repo function
+		name := ""
+		switch a := n.Args[0].(type) {
+		case EField:
+			if v, ok := a.X.(EVar); ok {
+				name = v.Name + "." + a.Name
+			}
+		case EVar:
+			name = a.Name
+		}
+		fn := w.funcs[name]
+		if fn == nil {
+			return "", tBool, fmt.Errorf("fnvalue: unknown function %q", name)
+		}
+		return e.val(fn), tRef, nil
+	case "$idx": // $idx(N): the range index of loop N (rangeindex of an enclosing loop)
+		li, ok := n.Args[0].(EInt)
+		if !ok || env.idxOf == nil {
+			return "", tBool, fmt.Errorf("$idx(N) needs a literal loop ordinal inside a function contract")
+		}
+		var ord int
+		fmt.Sscanf(li.V, "%d", &ord)
+		t, err := env.idxOf(ord)
+		return t, tInt, err
 	case "ref": // view any Ref-sorted value as Ref
 		t, _, err := env.elab(n.Args[0])
 		return t, tRef, err
@@ -561,7 +586,7 @@ func (env *Env) elabCall(n ECall) (string, SType, error) {
 		}
 		// macro: evaluate the body in an environment binding parameters to
 		// argument terms; heap reads happen in the caller's heap state.
-		c := &Env{e: e, vars: map[string]EV{}, curVer: env.curVer, oldVer: env.oldVer, visited: env.visited, visitedOf: env.visitedOf, preVer: env.preVer, qdepth: env.qdepth, qvars: env.qvars, trig: env.trig}
+		c := &Env{e: e, vars: map[string]EV{}, curVer: env.curVer, oldVer: env.oldVer, visited: env.visited, visitedOf: env.visitedOf, idxOf: env.idxOf, preVer: env.preVer, qdepth: env.qdepth, qvars: env.qvars, trig: env.trig}
 		var lets []string
 		for i, p := range d.Params {
 			at, ast, err := env.elab(n.Args[i])
